@@ -4,6 +4,7 @@ package seqio
 
 import (
 	"bytes"
+	"strings"
 
 	"github.com/go-gts/gts"
 )
@@ -71,18 +72,25 @@ func vSmallRecord(withOrigin bool) string {
 		gb.Origin = NewOrigin(nil)
 		gb.Fields.Contig = Contig{"C", gts.Segment{0, 4}}
 	}
+	if vCRLFRecord {
+		return strings.ReplaceAll(gb.String(), "\n", "\r\n")
+	}
 	return gb.String()
 }
 
+// vCRLFRecord: the small record with CRLF line ends (C07: "LF or CRLF").
+var vCRLFRecord bool
+
 //verif:harness prop=C07 quick=1 thorough=1 merge=concrete
-//verif:bounds sanity: the small valid records (with ORIGIN / CONTIG-only) produced by the real writer are accepted by the real reader (concrete execution through the engine; calibrates the mutation harnesses)
+//verif:bounds sanity: the small valid records (with ORIGIN / CONTIG-only / with ORIGIN and CRLF line ends) produced by the real writer are accepted by the real reader (concrete execution through the engine; calibrates the mutation harnesses)
 func VH_C07_genbank_baseline() {
-	for k := 0; k < 2; k++ {
-		text := vSmallRecord(k == 0)
+	for k := 0; k < 3; k++ {
+		vCRLFRecord = k == 2
+		text := vSmallRecord(k != 1)
 		n, seqs, err := vScanAll([]byte(text), 3)
 		vCover("baseline")
 		vAssert("baseline-accepted", vAnd(err == nil, n == 1))
-		if n == 1 && k == 0 {
+		if n == 1 && k != 1 {
 			vAssert("baseline-residues", string(seqs[0].Bytes()) == "acgt")
 		}
 		vObserve("len", len(text))
@@ -211,6 +219,19 @@ func vC07MutationAt(withOrigin bool, op int, o int) {
 //verif:harness prop=C07 quick=16 thorough=16 merge=concrete steps=400000000 timeout=1500
 //verif:bounds one structure-aware edit of a small valid GenBank record with ORIGIN (about 480 bytes, produced by the real writer): truncate at every offset and flip every byte to a fully symbolic byte (all 256 values); offsets enumerated, byte symbolic
 func VH_C07_genbank_mutation_origin() {
+	s := vShard(16)
+	vC07Mutation(true, vChoice("op", 2), s, 16)
+}
+
+//verif:harness prop=C07 quick=4 thorough=16 merge=concrete steps=400000000 timeout=1500
+//verif:bounds the same record with CRLF line ends (the reader's slow ORIGIN path): accepted unedited; truncate at every offset and flip every byte to a fully symbolic byte; quick: every fourth offset
+func VH_C07_genbank_mutation_crlf() {
+	vCRLFRecord = true
+	if vTier() == 0 {
+		s := vShard(4)
+		vC07Mutation(true, vChoice("op", 2), 4*s, 16)
+		return
+	}
 	s := vShard(16)
 	vC07Mutation(true, vChoice("op", 2), s, 16)
 }
